@@ -73,6 +73,11 @@ CHECKS["C13"] = ("exploration",
  "Every value of the builtin universe extended with objects over empty, multi-byte and escape-needing keys, empty containers at every position and all strings of length <= 2 over the C12 alphabet is run through 15 inverse-pair laws (fromstream(tostream), to_entries|from_entries, with_entries(.), explode|implode, @base64|@base64d, @uri|@urid, tojson|fromjson, tostring|tonumber, setpath/getpath over all paths, [paths] vs path(..), tostream leaves and their replay with setpath), each evaluated through the public API as a jq program returning (lhs, rhs) that is compared with the harness's own equality; split(s)|join(s) for every (string, non-empty separator) pair; todate|fromdate, gmtime|mktime and two mixed compositions on ~98k epochs (+-1 s around day/month/leap/year/century boundaries of ~50 years between 1 and 9999, +-10^k, 32-bit limits, a 37-day grid over the whole range) in three number representations; tostring|tonumber and tojson|fromjson on the C10 integer set in every representation and on float classes.",
  "Domains are those of the statement. One known finding: the first second of year 1 does not survive todate|fromdate.",
  "DESIGN.md §4 C13")
+CHECKS["C14"] = ("exploration",
+ "exhaustive enumeration of subjects x regexes x flag sets through one compiled program, against Go's regexp with independent code-point conversion",
+ "All subjects of length <= 4 (thorough 5) over a 7-symbol alphabet mixing 1-, 2-, 3- and 4-byte characters, a combining mark and newline x 70 regexes (literals of every width, classes, anchors, empty-matching forms, unnamed/named/nested/optional groups, alternations with unmatched groups, invalid patterns, patterns whose text equals pattern+flags of another) x 10 flag sets are sent, in one fixed history per worker, through ONE compiled program so that the regexp cache is shared: match must report exactly what Go's regexp plus an independent byte-to-code-point conversion reports (offsets, lengths, strings, captures, names); test, capture, scan, splits, split/2, sub and gsub must be the documented compositions of the (global) matches and terminate (poll budget + watchdog); every reported (offset, length) must slice the subject to the reported string. .[i:j] and .[i] for all i, j in -(n+1)..n+1, length = explode|length, indices/index/rindex for every needle of length <= 2, and long subjects with multi-byte prefixes up to 120 code points.",
+ "Trusted: Go's regexp as the regex oracle and the documented flag translation (i -> (?i), m -> (?s)).",
+ "DESIGN.md §4 C14")
 NOT_YET = "check not built yet (work in progress in this session); see DESIGN.md for the planned exploration"
 
 def commits():
